@@ -235,7 +235,9 @@ ReserveLaws(S, e, k, obs) ==
 ReleaseLaws(e, led2, obs) ==
   LET pointed == {obs[h].a : h \in DOMAIN obs} \cup {obs[h].a2 : h \in DOMAIN obs}
       leaked == {id \in DOMAIN led2 : led2[id].live /\ led2[id].org = 1 /\ led2[id].align = 1 /\ id \notin pointed}
-      early == {m \in FreesOf(e) : \E h \in DOMAIN obs : obs[h].a = m.id /\ obs[h].len > 0}
+      \* a freed block that a live non-empty handle still reads: it holds the first (a) or the
+      \* last (ae) byte of the handle's view
+      early == {m \in FreesOf(e) : \E h \in DOMAIN obs : (obs[h].a = m.id \/ obs[h].ae = m.id) /\ obs[h].len > 0}
   IN (IF leaked # {} THEN {<<"C03", "freed_at_last">>} ELSE {})
      \cup (IF early # {} THEN {<<"C03", "not_freed_early">>} ELSE {})
 
